@@ -54,7 +54,7 @@ def bit_queries(rng, n):
 def check(run):
     proofs_ok = run.proofs()
     quick = run.tier == "quick"
-    ns, nops = (300, 100) if quick else (1500, 200)
+    ns, nops = (300, 100) if quick else (8000, 200)
     nq = 3000 if quick else 100000
     if not proofs_ok:
         ns *= 10
